@@ -6,6 +6,7 @@ package checks
 // length prefixes without a body).
 
 import (
+	"bytes"
 	"encoding/binary"
 	"fmt"
 	"math"
@@ -337,6 +338,41 @@ func c09Typed(b *c09Base) []c09Input {
 		f := append([]byte{}, file...)
 		copy(f[b.poff(k)+int(b.payload.Sections[0].Offset)+b.payload.Sections[0].LenSize:], append([]byte{1, 0x55, 0x12}, refcar.PutUvarint(nil, 32<<20)...))
 		add("cid-digest-len:"+k, f, c09Opts{})
+	}
+
+	// CBOR header claims: the header body stays small (well under every limit) but its CBOR items
+	// claim huge lengths or nest deeply — a decoder that pre-allocates what an item claims, or
+	// recurses without bound, shows up here with a few-hundred-byte input.
+	{
+		sections := b.v1[int(b.payload.HeaderSize):]
+		u32 := func(major byte, n uint32) []byte {
+			return []byte{major<<5 | 26, byte(n >> 24), byte(n >> 16), byte(n >> 8), byte(n)}
+		}
+		rootsKey := append([]byte{0x65}, "roots"...)
+		versionKV := append(append([]byte{0x67}, "version"...), 0x01)
+		aCid := append([]byte{0xd8, 0x2a, 0x58, 0x25, 0x00}, b.payload.Sections[0].Cid.Raw...)
+		bodies := map[string][]byte{
+			"array-count":  append(append(append([]byte{0xa2}, rootsKey...), u32(4, 1<<26)...), aCid...),
+			"bytes-length": append(append(append(append([]byte{0xa2}, rootsKey...), 0x81, 0xd8, 0x2a), u32(2, 22<<20)...), 0x00, 0x01, 0x55, 0x12, 0x20),
+			"map-count":    append(append(u32(5, 1<<26), rootsKey...), 0x80),
+			"text-length":  append(append([]byte{0xa2}, u32(3, 20<<20)...), "roots"...),
+			"nesting":      append(append(append([]byte{0xa2}, rootsKey...), bytes.Repeat([]byte{0x81}, 900)...), 0x80),
+			"tag-chain":    append(append(append([]byte{0xa2}, rootsKey...), bytes.Repeat([]byte{0xd8, 0x2a}, 400)...), 0x40),
+			"valid+claims": append(append(append(append(append([]byte{0xa3}, rootsKey...), 0x80), versionKV...), 0x61, 'x'), u32(2, 30<<20)...),
+		}
+		names := make([]string, 0, len(bodies))
+		for n := range bodies {
+			names = append(names, n)
+		}
+		sort.Strings(names)
+		for _, n := range names {
+			body := bodies[n]
+			v1 := append(append(refcar.PutUvarint(nil, uint64(len(body))), body...), sections...)
+			for _, o := range []c09Opts{small, {}} {
+				add("cbor-header-claims:v1", v1, o)
+				add("cbor-header-claims:v2", refcar.EncodeV2(v1, refcar.V2Opts{}), o)
+			}
+		}
 	}
 
 	// CARv2 header fields
